@@ -183,9 +183,24 @@ def _cachegrind_scaling_one(drv, build_name, n_small, factor, step, deep):
     except ValueError:
         return extra, viol, ["cannot list families"]
 
+    # the hooked twin of the measured build: a budget (logical steps) decides an endless loop, the
+    # wall-clock limits below only ever make a run inconclusive
+    pre_exe = exe if build_name.endswith("-ms") else bins["rel"]
+    budget_hits = {}
+
     def irefs(path):
-        q = subprocess.run(["valgrind", "--tool=cachegrind", "--cache-sim=no", "--cachegrind-out-file=/dev/null", exe, "lexfile", path],
-                           stdout=subprocess.PIPE, stderr=subprocess.PIPE, text=True, env=drv.ENV)
+        try:
+            pre = subprocess.run([pre_exe, "lexfile", path, "--budget"], stdout=subprocess.PIPE, stderr=subprocess.PIPE, text=True, env=drv.ENV, timeout=600)
+        except subprocess.TimeoutExpired:
+            return None
+        if pre.returncode == 4:
+            budget_hits[path] = pre.stdout.strip()
+            return None
+        try:
+            q = subprocess.run(["valgrind", "--tool=cachegrind", "--cache-sim=no", "--cachegrind-out-file=/dev/null", exe, "lexfile", path],
+                               stdout=subprocess.PIPE, stderr=subprocess.PIPE, text=True, env=drv.ENV, timeout=3600)
+        except subprocess.TimeoutExpired:
+            return None
         m = re.search(r"I\s+refs:\s+([\d,]+)", q.stderr)
         if q.returncode != 0 or not m:
             return None
@@ -209,6 +224,12 @@ def _cachegrind_scaling_one(drv, build_name, n_small, factor, step, deep):
                 os.remove(path)
                 break
             out.append((n, size, irefs(path)))
+            if path in budget_hits:
+                hit = budget_hits.pop(path).split()
+                counter = hit[1] if len(hit) > 1 else "?"
+                viol.append((build_name, _viol("C01.budget|%s|family:%s" % (counter, name), "C01.budget",
+                                                "work counter %s exceeded its linear budget on family %s, n=%d (%d bytes): %s" % (counter, name, n, size, " ".join(hit)),
+                                                ["family %s n=%d" % (name, n)])))
             os.remove(path)
         return i, name, out
 
@@ -218,7 +239,8 @@ def _cachegrind_scaling_one(drv, build_name, n_small, factor, step, deep):
     table = []
     for i, name, out in res:
         if any(x[2] is None for x in out):
-            inc.append("cachegrind failed on family %s" % name)
+            if not any(v[1]["sig"].endswith("family:%s" % name) for v in viol):
+                inc.append("cachegrind failed or timed out on family %s" % name)
             continue
         for (n1, s1, i1), (n2, s2, i2) in zip(out, out[1:]):
             a, b = max(i1 - base, 1), max(i2 - base, 1)
